@@ -11,6 +11,7 @@
 mod alloc;
 mod common;
 mod live;
+mod subs;
 mod c18b;
 mod sim;
 mod world;
@@ -58,6 +59,7 @@ properties! {
     "C08" => c08,
     "C09" => c09,
     "C10" => c10,
+    "C11" => c11,
     "C15" => c15,
     "C16" => c16,
     "C17" => c17,
